@@ -475,14 +475,11 @@ func runC05(c *Ctx) {
 						return true
 					}
 					subj, pol := BoolSubject(iff.Cond)
-					b, ok := subj.(*ssa.BinOp)
-					if !ok || b.Op != token.EQL && b.Op != token.NEQ {
+					isT, whenTrue := sentinelTest(subj, g)
+					if !isT {
 						return true
 					}
-					if !(IsGlobalLoad(g)(b.X) || IsGlobalLoad(g)(b.Y)) {
-						return true
-					}
-					isEq := (b.Op == token.EQL) == pol // cond true means equal
+					isEq := whenTrue == pol // cond true means equal
 					// take the "not equal" edge
 					if isEq {
 						return to == from.Succs[1]
@@ -496,13 +493,13 @@ func runC05(c *Ctx) {
 			as := []Assumption{{isCtxErrCall, ctxErr}}
 			if name == "runRes" {
 				if g := outOfAmmoGlobal(c); g != nil {
-					isCmp := func(op token.Token) func(ssa.Value) bool {
+					isCmp := func(eq bool) func(ssa.Value) bool {
 						return func(v ssa.Value) bool {
-							b, ok := v.(*ssa.BinOp)
-							return ok && b.Op == op && (IsGlobalLoad(g)(b.X) || IsGlobalLoad(g)(b.Y))
+							isT, whenTrue := sentinelTest(v, g)
+							return isT && whenTrue == eq
 						}
 					}
-					as = append(as, Assumption{isCmp(token.EQL), false}, Assumption{isCmp(token.NEQ), true})
+					as = append(as, Assumption{isCmp(true), false}, Assumption{isCmp(false), true})
 				}
 			}
 			return as
